@@ -1,63 +1,181 @@
 /* VERIF-UNIT
 {
- "name": "gen64_mark_unmark_test",
+ "name": "gen64_mark",
  "props": ["C16"],
  "level": "U",
  "tier": "wip",
  "harness": "h_gen_single",
- "enforce": ["ext2fs_mark_generic_bmap", "ext2fs_unmark_generic_bmap", "ext2fs_test_generic_bmap"],
- "functions": ["lib/ext2fs/gen_bitmap64.c:ext2fs_mark_generic_bmap", "lib/ext2fs/gen_bitmap64.c:ext2fs_unmark_generic_bmap", "lib/ext2fs/gen_bitmap64.c:ext2fs_test_generic_bmap", "lib/ext2fs/gen_bitmap64.c:warn_bitmap"],
+ "defines": ["SINGLE_OP=0"],
+ "enforce": ["ext2fs_mark_generic_bmap"],
+ "functions": ["lib/ext2fs/gen_bitmap64.c:ext2fs_mark_generic_bmap", "lib/ext2fs/gen_bitmap64.c:warn_bitmap"],
  "assumes": ["backend = harness model backend (set semantics at one ghost cluster, argument checks, call log); the real backends are proved against the same contracts in their own units",
              "legacy 32-bit magic excluded (dispatch to gen_bitmap.c)",
              "0 <= cluster_bits <= 32, start <= end <= real_end, real_end < 2^62 >> cluster_bits"],
+ "backend": "kissat",
  "native": true
 }
 */
 /* VERIF-UNIT
 {
- "name": "gen64_block_range2",
+ "name": "gen64_unmark",
+ "props": ["C16"],
+ "level": "U",
+ "tier": "wip",
+ "harness": "h_gen_single",
+ "defines": ["SINGLE_OP=1"],
+ "enforce": ["ext2fs_unmark_generic_bmap"],
+ "functions": ["lib/ext2fs/gen_bitmap64.c:ext2fs_unmark_generic_bmap", "lib/ext2fs/gen_bitmap64.c:warn_bitmap"],
+ "assumes": ["backend = harness model backend (set semantics at one ghost cluster, argument checks, call log); the real backends are proved against the same contracts in their own units",
+             "legacy 32-bit magic excluded (dispatch to gen_bitmap.c)",
+             "0 <= cluster_bits <= 32, start <= end <= real_end, real_end < 2^62 >> cluster_bits"],
+ "backend": "kissat",
+ "native": true
+}
+*/
+/* VERIF-UNIT
+{
+ "name": "gen64_test",
+ "props": ["C16"],
+ "level": "U",
+ "tier": "wip",
+ "harness": "h_gen_single",
+ "defines": ["SINGLE_OP=2"],
+ "enforce": ["ext2fs_test_generic_bmap"],
+ "functions": ["lib/ext2fs/gen_bitmap64.c:ext2fs_test_generic_bmap", "lib/ext2fs/gen_bitmap64.c:warn_bitmap"],
+ "assumes": ["backend = harness model backend (set semantics at one ghost cluster, argument checks, call log); the real backends are proved against the same contracts in their own units",
+             "legacy 32-bit magic excluded (dispatch to gen_bitmap.c)",
+             "0 <= cluster_bits <= 32, start <= end <= real_end, real_end < 2^62 >> cluster_bits"],
+ "backend": "kissat",
+ "native": true
+}
+*/
+/* VERIF-UNIT
+{
+ "name": "gen64_test_range2",
  "props": ["C16"],
  "level": "U",
  "tier": "wip",
  "harness": "h_gen_range",
- "enforce": ["ext2fs_test_block_bitmap_range2", "ext2fs_mark_block_bitmap_range2", "ext2fs_unmark_block_bitmap_range2"],
- "functions": ["lib/ext2fs/gen_bitmap64.c:ext2fs_test_block_bitmap_range2", "lib/ext2fs/gen_bitmap64.c:ext2fs_mark_block_bitmap_range2", "lib/ext2fs/gen_bitmap64.c:ext2fs_unmark_block_bitmap_range2"],
+ "defines": ["RANGE_OP=0", "GEN64_RANGE"],
+ "enforce": ["ext2fs_test_block_bitmap_range2"],
+ "functions": ["lib/ext2fs/gen_bitmap64.c:ext2fs_test_block_bitmap_range2"],
  "assumes": ["backend = harness model backend (see gen64_common.h)",
              "legacy 32-bit magic excluded (dispatch to gen_bitmap.c)",
              "num >= 1 (callers pass a positive block count; the rounding of an empty range is not defined by the property)",
              "0 <= cluster_bits <= 32, start <= end <= real_end, real_end < 2^62 >> cluster_bits (block numbers are at most 48 bits on disk)"],
+ "backend": "kissat",
  "native": true
 }
 */
 /* VERIF-UNIT
 {
- "name": "gen64_find_first_backend",
+ "name": "gen64_mark_range2",
  "props": ["C16"],
  "level": "U",
  "tier": "wip",
+ "harness": "h_gen_range",
+ "defines": ["RANGE_OP=1", "GEN64_RANGE"],
+ "enforce": ["ext2fs_mark_block_bitmap_range2"],
+ "functions": ["lib/ext2fs/gen_bitmap64.c:ext2fs_mark_block_bitmap_range2"],
+ "assumes": ["backend = harness model backend (see gen64_common.h)",
+             "legacy 32-bit magic excluded (dispatch to gen_bitmap.c)",
+             "num >= 1 (callers pass a positive block count; the rounding of an empty range is not defined by the property)",
+             "0 <= cluster_bits <= 32, start <= end <= real_end, real_end < 2^62 >> cluster_bits (block numbers are at most 48 bits on disk)"],
+ "backend": "kissat",
+ "native": true
+}
+*/
+/* VERIF-UNIT
+{
+ "name": "gen64_unmark_range2",
+ "props": ["C16"],
+ "level": "U",
+ "tier": "wip",
+ "harness": "h_gen_range",
+ "defines": ["RANGE_OP=2", "GEN64_RANGE"],
+ "enforce": ["ext2fs_unmark_block_bitmap_range2"],
+ "functions": ["lib/ext2fs/gen_bitmap64.c:ext2fs_unmark_block_bitmap_range2"],
+ "assumes": ["backend = harness model backend (see gen64_common.h)",
+             "legacy 32-bit magic excluded (dispatch to gen_bitmap.c)",
+             "num >= 1 (callers pass a positive block count; the rounding of an empty range is not defined by the property)",
+             "0 <= cluster_bits <= 32, start <= end <= real_end, real_end < 2^62 >> cluster_bits (block numbers are at most 48 bits on disk)"],
+ "backend": "kissat",
+ "native": true
+}
+*/
+/* VERIF-UNIT
+{
+ "name": "gen64_ffz_backend",
+ "props": ["C16"],
+ "level": "U",
+ "unwindset": {"ext2fs_find_first_zero_generic_bmap.0": 1, "ext2fs_find_first_zero_generic_bmap.1": 1},
+ "unwind_reason": "the generic test_bmap loop (and the backward goto into the found: block) is unreachable when the backend provides find_first operations; the unwinding assertions prove exactly that",
+ "tier": "wip",
  "harness": "h_gen_ff",
- "enforce": ["ext2fs_find_first_zero_generic_bmap", "ext2fs_find_first_set_generic_bmap"],
- "functions": ["lib/ext2fs/gen_bitmap64.c:ext2fs_find_first_zero_generic_bmap", "lib/ext2fs/gen_bitmap64.c:ext2fs_find_first_set_generic_bmap"],
+ "defines": ["FF_OP=0", "GEN64_FF_BACKEND"],
+ "enforce": ["ext2fs_find_first_zero_generic_bmap"],
+ "functions": ["lib/ext2fs/gen_bitmap64.c:ext2fs_find_first_zero_generic_bmap"],
  "assumes": ["backend = harness model backend providing find_first_zero/find_first_set: any answer consistent with set semantics at the ghost cluster, or an arbitrary error code",
              "the fallback loop (backend without find_first operations) is the separate unit gen64_find_first_fallback",
              "legacy 32-bit magic excluded (dispatch to gen_bitmap.c)",
              "0 <= cluster_bits <= 32, start <= end <= real_end, real_end < 2^62 >> cluster_bits"],
+ "backend": "kissat",
  "native": true
 }
 */
 /* VERIF-UNIT
 {
- "name": "gen64_find_first_fallback",
+ "name": "gen64_ffs_backend",
+ "props": ["C16"],
+ "level": "U",
+ "unwindset": {"ext2fs_find_first_set_generic_bmap.0": 1, "ext2fs_find_first_set_generic_bmap.1": 1},
+ "unwind_reason": "the generic test_bmap loop (and the backward goto into the found: block) is unreachable when the backend provides find_first operations; the unwinding assertions prove exactly that",
+ "tier": "wip",
+ "harness": "h_gen_ff",
+ "defines": ["FF_OP=1", "GEN64_FF_BACKEND"],
+ "enforce": ["ext2fs_find_first_set_generic_bmap"],
+ "functions": ["lib/ext2fs/gen_bitmap64.c:ext2fs_find_first_set_generic_bmap"],
+ "assumes": ["backend = harness model backend providing find_first_zero/find_first_set: any answer consistent with set semantics at the ghost cluster, or an arbitrary error code",
+             "the fallback loop (backend without find_first operations) is the separate unit gen64_find_first_fallback",
+             "legacy 32-bit magic excluded (dispatch to gen_bitmap.c)",
+             "0 <= cluster_bits <= 32, start <= end <= real_end, real_end < 2^62 >> cluster_bits"],
+ "backend": "kissat",
+ "native": true
+}
+*/
+/* VERIF-UNIT
+{
+ "name": "gen64_ffz_fallback",
  "props": ["C16"],
  "level": "U",
  "tier": "wip",
  "harness": "h_gen_ff_fallback",
- "enforce": ["ext2fs_find_first_zero_generic_bmap", "ext2fs_find_first_set_generic_bmap"],
+ "defines": ["FF_OP=0", "GEN64_FF_FALLBACK"],
+ "enforce": ["ext2fs_find_first_zero_generic_bmap"],
  "loop_contracts": true,
- "functions": ["lib/ext2fs/gen_bitmap64.c:ext2fs_find_first_zero_generic_bmap", "lib/ext2fs/gen_bitmap64.c:ext2fs_find_first_set_generic_bmap"],
+ "functions": ["lib/ext2fs/gen_bitmap64.c:ext2fs_find_first_zero_generic_bmap"],
  "assumes": ["backend = harness model backend WITHOUT find_first operations (generic test_bmap loop, closed by an in-place loop contract)",
              "legacy 32-bit magic excluded (dispatch to gen_bitmap.c)",
              "0 <= cluster_bits <= 32, start <= end <= real_end, real_end < 2^62 >> cluster_bits"],
+ "backend": "kissat",
+ "native": true
+}
+*/
+/* VERIF-UNIT
+{
+ "name": "gen64_ffs_fallback",
+ "props": ["C16"],
+ "level": "U",
+ "tier": "wip",
+ "harness": "h_gen_ff_fallback",
+ "defines": ["FF_OP=1", "GEN64_FF_FALLBACK"],
+ "enforce": ["ext2fs_find_first_set_generic_bmap"],
+ "loop_contracts": true,
+ "functions": ["lib/ext2fs/gen_bitmap64.c:ext2fs_find_first_set_generic_bmap"],
+ "assumes": ["backend = harness model backend WITHOUT find_first operations (generic test_bmap loop, closed by an in-place loop contract)",
+             "legacy 32-bit magic excluded (dispatch to gen_bitmap.c)",
+             "0 <= cluster_bits <= 32, start <= end <= real_end, real_end < 2^62 >> cluster_bits"],
+ "backend": "kissat",
  "native": true
 }
 */
@@ -72,6 +190,7 @@
  "functions": ["lib/ext2fs/gen_bitmap64.c:ext2fs_set_generic_bmap_range", "lib/ext2fs/gen_bitmap64.c:ext2fs_get_generic_bmap_range", "lib/ext2fs/gen_bitmap64.c:ext2fs_resize_generic_bmap", "lib/ext2fs/gen_bitmap64.c:ext2fs_fudge_generic_bmap_end"],
  "assumes": ["backend = harness model backend (logs the call, returns an arbitrary code)",
              "legacy 32-bit magic excluded (dispatch to gen_bitmap.c)"],
+ "backend": "kissat",
  "native": true
 }
 */
@@ -83,14 +202,17 @@
  *   c inside [start, end]          -> backend called exactly once for exactly cluster c, result = old membership
  *                                     of c, set becomes NEWMEMBER
  *   c outside                      -> 0, nothing changes, error hook called once with base_error_code + op code */
-static int spec_single(ext2fs_generic_bitmap g, __u64 arg, int ret, int OPC, int ERRC, int NEWMEMBER)
+/* membership of k after the operation OPC on cluster c */
+#define NEW_SINGLE(OPC, c) ((OPC) == OP_MARK ? (verif_old_bit || (c) == verif_k) : \
+			    (OPC) == OP_UNMARK ? (verif_old_bit && (c) != verif_k) : (verif_old_bit != 0))
+static int spec_single(ext2fs_generic_bitmap g, __u64 arg, int ret, int OPC, int ERRC)
 {
 	return ( 
 	!VALID64(g) ? ((ret) == 0 && G_CALLS == 0 && G_WARN == 0 && verif_g0 == (unsigned)verif_old_bit) : 
 	IN_RANGE(g, CL(g, arg)) ? 
 		(G_CALLS == 1 && G_OP == (OPC) && G_ARG == CL(g, arg) && g_bm == (const void *)(g) && G_WARN == 0 && 
 		 (CL(g, arg) != verif_k || ((ret) != 0) == (verif_old_bit != 0)) && 
-		 verif_g0 == (unsigned)(NEWMEMBER)) : 
+		 verif_g0 == (unsigned)NEW_SINGLE(OPC, CL(g, arg))) : 
 		((ret) == 0 && G_CALLS == 0 && G_WARN == 1 && 
 		 G_CODE == (unsigned long long)(B64(g)->base_error_code + (ERRC)) && verif_g0 == (unsigned)verif_old_bit));
 }
@@ -104,18 +226,18 @@ static int pre_a(ext2fs_generic_bitmap g, const struct ext2_bitmap_ops *ops)
 
 int ext2fs_mark_generic_bmap(ext2fs_generic_bitmap gen_bitmap, __u64 arg)
 	REQUIRES(PRE_A(gen_bitmap, &MODEL_OPS) && PRE_LOG)
-	ENSURES(spec_single(gen_bitmap, arg, RET, OP_MARK, EXT2FS_MARK_ERROR, verif_old_bit || CL(gen_bitmap, arg) == verif_k))
+	ENSURES(spec_single(gen_bitmap, arg, RET, OP_MARK, EXT2FS_MARK_ERROR))
 	ASSIGNS(GHOSTS);
 
 int ext2fs_unmark_generic_bmap(ext2fs_generic_bitmap gen_bitmap, __u64 arg)
 	REQUIRES(PRE_A(gen_bitmap, &MODEL_OPS) && PRE_LOG)
-	ENSURES(spec_single(gen_bitmap, arg, RET, OP_UNMARK, EXT2FS_UNMARK_ERROR, verif_old_bit && CL(gen_bitmap, arg) != verif_k))
+	ENSURES(spec_single(gen_bitmap, arg, RET, OP_UNMARK, EXT2FS_UNMARK_ERROR))
 	ASSIGNS(GHOSTS);
 
-#if !defined(VERIF_UNIT_gen64_block_range2) && !defined(VERIF_UNIT_gen64_compare)
+#if !defined(GEN64_RANGE) && !defined(VERIF_UNIT_gen64_compare)
 int ext2fs_test_generic_bmap(ext2fs_generic_bitmap gen_bitmap, __u64 arg)
 	REQUIRES(PRE_A(gen_bitmap, &MODEL_OPS) && PRE_LOG)
-	ENSURES(spec_single(gen_bitmap, arg, RET, OP_TEST, EXT2FS_TEST_ERROR, verif_old_bit))
+	ENSURES(spec_single(gen_bitmap, arg, RET, OP_TEST, EXT2FS_TEST_ERROR))
 	ASSIGNS(GHOSTS);
 #endif
 
@@ -123,23 +245,26 @@ void h_gen_single(void)
 {
 	ext2fs_generic_bitmap g = build_a(&MODEL_OPS);
 	int r;
-	if (IN.op % 3 == 0) {
-		r = ext2fs_mark_generic_bmap(g, IN.arg);
-		CHECK(spec_single(g, IN.arg, r, OP_MARK, EXT2FS_MARK_ERROR, verif_old_bit || CL(g, IN.arg) == verif_k),
-		      "mark: the cluster of arg joins the set, result = old membership; out of range: 0, no change, error hook");
-		if (g && IS64M(IN.magic) && G_CALLS == 1 && CL(g, IN.arg) == verif_k) REACH("mark in range at k");
-		if (g && IS64M(IN.magic) && G_WARN == 1) REACH("mark out of range");
-	} else if (IN.op % 3 == 1) {
-		r = ext2fs_unmark_generic_bmap(g, IN.arg);
-		CHECK(spec_single(g, IN.arg, r, OP_UNMARK, EXT2FS_UNMARK_ERROR, verif_old_bit && CL(g, IN.arg) != verif_k),
-		      "unmark: the cluster of arg leaves the set, result = old membership; out of range: 0, no change, error hook");
-		if (g && IS64M(IN.magic) && G_CALLS == 1) REACH("unmark in range");
-	} else {
-		r = ext2fs_test_generic_bmap(g, IN.arg);
-		CHECK(spec_single(g, IN.arg, r, OP_TEST, EXT2FS_TEST_ERROR, verif_old_bit),
-		      "test: result = membership of the cluster of arg, no change; out of range: 0, error hook");
-		if (g && IS64M(IN.magic) && G_CALLS == 1 && IN.cluster_bits > 0) REACH("test in range, bigalloc");
-	}
+#if SINGLE_OP == 0
+	r = ext2fs_mark_generic_bmap(g, IN.arg);
+	CHECK(spec_single(g, IN.arg, r, OP_MARK, EXT2FS_MARK_ERROR),
+	      "mark: the cluster of arg joins the set, result = old membership; out of range: 0, no change, error hook");
+	if (g && IS64M(IN.magic) && G_CALLS == 1 && G_ARG == verif_k && IN.cluster_bits > 0) REACH("mark in range at k, bigalloc");
+	if (g && IS64M(IN.magic) && G_WARN == 1) REACH("mark out of range");
+#elif SINGLE_OP == 1
+	r = ext2fs_unmark_generic_bmap(g, IN.arg);
+	CHECK(spec_single(g, IN.arg, r, OP_UNMARK, EXT2FS_UNMARK_ERROR),
+	      "unmark: the cluster of arg leaves the set, result = old membership; out of range: 0, no change, error hook");
+	if (g && IS64M(IN.magic) && G_CALLS == 1 && G_ARG == verif_k && IN.cluster_bits > 0) REACH("unmark in range at k, bigalloc");
+	if (g && IS64M(IN.magic) && G_WARN == 1) REACH("unmark out of range");
+#else
+	r = ext2fs_test_generic_bmap(g, IN.arg);
+	CHECK(spec_single(g, IN.arg, r, OP_TEST, EXT2FS_TEST_ERROR),
+	      "test: result = membership of the cluster of arg, no change; out of range: 0, error hook");
+	if (g && IS64M(IN.magic) && G_CALLS == 1 && G_ARG == verif_k && IN.cluster_bits > 0) REACH("test in range at k, bigalloc");
+	if (g && IS64M(IN.magic) && G_WARN == 1) REACH("test out of range");
+#endif
+	if (!g) REACH("NULL handle");
 	REACH("end");
 }
 
@@ -151,13 +276,14 @@ void h_gen_single(void)
 #define NCL(g, block, num) (CL(g, LASTB(block, num)) - CL(g, block) + 1)
 #define K_IN_RANGE(g, block, num) (verif_k >= CL(g, block) && verif_k <= CL(g, LASTB(block, num)))
 
-static int spec_range(ext2fs_generic_bitmap g, __u64 block, unsigned int num, int OPC, errcode_t ERRCODE, int NEWMEMBER)
+static int spec_range(ext2fs_generic_bitmap g, __u64 block, unsigned int num, int OPC, errcode_t ERRCODE)
 {
 	return ( 
 	!VALID64(g) ? (G_CALLS == 0 && G_WARN == 0 && verif_g0 == (unsigned)verif_old_bit) : 
 	RANGE_OK(g, block, num) ? 
 		(G_CALLS == 1 && G_OP == (OPC) && G_ARG == CL(g, block) && G_NUM == NCL(g, block, num) && 
-		 g_bm == (const void *)(g) && G_WARN == 0 && verif_g0 == (unsigned)(NEWMEMBER)) : 
+		 g_bm == (const void *)(g) && G_WARN == 0 && 
+		 verif_g0 == (unsigned)((OPC) == OP_MARK_EXT ? (verif_old_bit || K_IN_RANGE(g, block, num)) : (verif_old_bit && !K_IN_RANGE(g, block, num)))) : 
 		(G_CALLS == 0 && G_WARN == 1 && G_CODE == (unsigned long long)(ERRCODE) && verif_g0 == (unsigned)verif_old_bit));
 }
 
@@ -177,7 +303,7 @@ static int spec_test_range(ext2fs_generic_bitmap g, __u64 block, unsigned int nu
 		((ret) != 0 && ((num) == 1 || (ret) == EINVAL) && G_CALLS == 0 && G_WARN == 1 && verif_g0 == (unsigned)verif_old_bit));
 }
 
-#ifdef VERIF_UNIT_gen64_block_range2
+#ifdef GEN64_RANGE
 int ext2fs_test_block_bitmap_range2(ext2fs_block_bitmap gen_bmap, blk64_t block, unsigned int num)
 	REQUIRES(PRE_A(gen_bmap, &MODEL_OPS) && PRE_LOG && num >= 1)
 	ENSURES(spec_test_range(gen_bmap, block, num, RET))
@@ -185,35 +311,38 @@ int ext2fs_test_block_bitmap_range2(ext2fs_block_bitmap gen_bmap, blk64_t block,
 
 void ext2fs_mark_block_bitmap_range2(ext2fs_block_bitmap gen_bmap, blk64_t block, unsigned int num)
 	REQUIRES(PRE_A(gen_bmap, &MODEL_OPS) && PRE_LOG && num >= 1)
-	ENSURES(spec_range(gen_bmap, block, num, OP_MARK_EXT, EXT2_ET_BAD_BLOCK_MARK, verif_old_bit || K_IN_RANGE(gen_bmap, block, num)))
+	ENSURES(spec_range(gen_bmap, block, num, OP_MARK_EXT, EXT2_ET_BAD_BLOCK_MARK))
 	ASSIGNS(GHOSTS);
 
 void ext2fs_unmark_block_bitmap_range2(ext2fs_block_bitmap gen_bmap, blk64_t block, unsigned int num)
 	REQUIRES(PRE_A(gen_bmap, &MODEL_OPS) && PRE_LOG && num >= 1)
-	ENSURES(spec_range(gen_bmap, block, num, OP_UNMARK_EXT, EXT2_ET_BAD_BLOCK_UNMARK, verif_old_bit && !K_IN_RANGE(gen_bmap, block, num)))
+	ENSURES(spec_range(gen_bmap, block, num, OP_UNMARK_EXT, EXT2_ET_BAD_BLOCK_UNMARK))
 	ASSIGNS(GHOSTS);
 #endif
 
 void h_gen_range(void)
 {
 	ext2fs_generic_bitmap g = build_a(&MODEL_OPS);
+#ifndef RANGE_OP
+#define RANGE_OP (IN.op % 3)
+#endif
 	ASSUME(IN.num >= 1);
-	if (IN.op % 3 == 0) {
+	if (RANGE_OP == 0) {
 		int r = ext2fs_test_block_bitmap_range2(g, IN.arg, IN.num);
 		CHECK(spec_test_range(g, IN.arg, IN.num, r),
 		      "test_range2: backend asked once for exactly the clusters intersecting [block, block+num); nonzero iff none is a member; bad range rejected");
 		if (g && IS64M(IN.magic) && G_OP == OP_TESTCLEAR && IN.cluster_bits > 0 && r == 0) REACH("test range bigalloc, member found");
 		if (g && IS64M(IN.magic) && G_OP == OP_TEST) REACH("test range, single block");
 		if (g && IS64M(IN.magic) && G_WARN == 1 && IN.num > 1) REACH("test range rejected");
-	} else if (IN.op % 3 == 1) {
+	} else if (RANGE_OP == 1) {
 		ext2fs_mark_block_bitmap_range2(g, IN.arg, IN.num);
-		CHECK(spec_range(g, IN.arg, IN.num, OP_MARK_EXT, EXT2_ET_BAD_BLOCK_MARK, verif_old_bit || K_IN_RANGE(g, IN.arg, IN.num)),
+		CHECK(spec_range(g, IN.arg, IN.num, OP_MARK_EXT, EXT2_ET_BAD_BLOCK_MARK),
 		      "mark_range2: exactly the clusters intersecting [block, block+num) join the set; bad range: nothing changes, error hook");
 		if (g && IS64M(IN.magic) && G_CALLS == 1 && IN.cluster_bits > 1 && (IN.arg & 3) == 3 && G_NUM > 1) REACH("mark range, unaligned bigalloc");
 		if (g && IS64M(IN.magic) && G_WARN == 1) REACH("mark range rejected");
 	} else {
 		ext2fs_unmark_block_bitmap_range2(g, IN.arg, IN.num);
-		CHECK(spec_range(g, IN.arg, IN.num, OP_UNMARK_EXT, EXT2_ET_BAD_BLOCK_UNMARK, verif_old_bit && !K_IN_RANGE(g, IN.arg, IN.num)),
+		CHECK(spec_range(g, IN.arg, IN.num, OP_UNMARK_EXT, EXT2_ET_BAD_BLOCK_UNMARK),
 		      "unmark_range2: exactly the clusters intersecting [block, block+num) leave the set; bad range: nothing changes, error hook");
 		if (g && IS64M(IN.magic) && G_CALLS == 1) REACH("unmark range accepted");
 	}
@@ -253,8 +382,8 @@ static int spec_ff(ext2fs_generic_bitmap g, __u64 s_, __u64 e_, const __u64 *out
 unsigned long long verif_oldout;	/* ghost: *out on entry */
 static __u64 OUT;
 
-#if defined(VERIF_UNIT_gen64_find_first_backend) || defined(VERIF_UNIT_gen64_find_first_fallback)
-#ifdef VERIF_UNIT_gen64_find_first_backend
+#if defined(GEN64_FF_BACKEND) || defined(GEN64_FF_FALLBACK)
+#ifdef GEN64_FF_BACKEND
 #define FF_OPS MODEL_OPS
 #define FF_BACKEND 1
 #else
@@ -275,27 +404,30 @@ errcode_t ext2fs_find_first_set_generic_bmap(ext2fs_generic_bitmap bitmap, __u64
 #define FF_BACKEND 1
 #endif
 
+static void ff_body(ext2fs_generic_bitmap g)
+{
+	errcode_t r;
+#if FF_OP == 0
+	r = ext2fs_find_first_zero_generic_bmap(g, IN.arg, IN.arg2, &OUT);
+	CHECK(spec_ff(g, IN.arg, IN.arg2, &OUT, verif_oldout, r, 0, OP_FFZ, FF_BACKEND),
+	      "find_first_zero: least block in [start,end] whose cluster is not a member, ENOENT if none, EINVAL on a bad range");
+#else
+	r = ext2fs_find_first_set_generic_bmap(g, IN.arg, IN.arg2, &OUT);
+	CHECK(spec_ff(g, IN.arg, IN.arg2, &OUT, verif_oldout, r, 1, OP_FFS, FF_BACKEND),
+	      "find_first_set: least block in [start,end] whose cluster is a member, ENOENT if none, EINVAL on a bad range");
+#endif
+	if (g && IS64M(IN.magic) && r == 0 && IN.cluster_bits > 0 && OUT == IN.arg && (IN.arg & 1)) REACH("result clamped to start");
+	if (g && IS64M(IN.magic) && r == 0 && IN.cluster_bits > 0 && OUT > IN.arg) REACH("result in a later cluster");
+	if (g && IS64M(IN.magic) && r == ENOENT) REACH("ENOENT");
+	if (g && IS64M(IN.magic) && r == EINVAL && G_WARN == 1) REACH("EINVAL");
+	if (!g) REACH("NULL handle");
+}
 static void ff_harness(void)
 {
 	ext2fs_generic_bitmap g = build_a(&FF_OPS);
-	errcode_t r;
 	OUT = IN.be_out ^ 0x5a5a;
 	verif_oldout = OUT;
-	if (IN.op % 2 == 0) {
-		r = ext2fs_find_first_zero_generic_bmap(g, IN.arg, IN.arg2, &OUT);
-		CHECK(spec_ff(g, IN.arg, IN.arg2, &OUT, verif_oldout, r, 0, OP_FFZ, FF_BACKEND),
-		      "find_first_zero: least block in [start,end] whose cluster is not a member, ENOENT if none, EINVAL on a bad range");
-		if (g && IS64M(IN.magic) && r == 0 && IN.cluster_bits > 0 && OUT == IN.arg && (IN.arg & 1)) REACH("ffz result clamped to start");
-		if (g && IS64M(IN.magic) && r == 0 && IN.cluster_bits > 0 && OUT > IN.arg) REACH("ffz result in a later cluster");
-		if (g && IS64M(IN.magic) && r == ENOENT) REACH("ffz ENOENT");
-		if (g && IS64M(IN.magic) && r == EINVAL && G_WARN == 1) REACH("ffz EINVAL");
-	} else {
-		r = ext2fs_find_first_set_generic_bmap(g, IN.arg, IN.arg2, &OUT);
-		CHECK(spec_ff(g, IN.arg, IN.arg2, &OUT, verif_oldout, r, 1, OP_FFS, FF_BACKEND),
-		      "find_first_set: least block in [start,end] whose cluster is a member, ENOENT if none, EINVAL on a bad range");
-		if (g && IS64M(IN.magic) && r == 0 && IN.cluster_bits > 0 && OUT > IN.arg) REACH("ffs result in a later cluster");
-		if (g && IS64M(IN.magic) && r == ENOENT) REACH("ffs ENOENT");
-	}
+	SPLIT_CB(ff_body, g);
 	REACH("end");
 }
 void h_gen_ff(void) { ff_harness(); }
